@@ -287,6 +287,21 @@ def unit_key(tier):
             missing = sorted(relevant - key)
             goals.append((f'{name}: result depends on {sorted(relevant)}; default cache name depends on {sorted(key & set(params))}; not in the name: {missing}',
                           z3.BoolVal(not missing)))
+            # the option must reach the hashed dictionary as the value itself (a lossy digest such as sorted(mapping) or len(...) would
+            # let two different option values share one cache file)
+            verbatim = set()
+            for n in ast.walk(fi.node):
+                if isinstance(n, ast.Dict):
+                    for k_, v_ in zip(n.keys, n.values):
+                        if isinstance(v_, ast.Name):
+                            verbatim.add(v_.id)
+                        if k_ is None and isinstance(v_, ast.Name):
+                            verbatim.add(v_.id)
+                if isinstance(n, ast.Call) and isinstance(n.func, ast.Attribute) and n.func.attr == 'with_suffix':
+                    verbatim |= {x.id for x in ast.walk(n.func.value) if isinstance(x, ast.Name)}
+                    verbatim |= {x.id for a_ in n.args for x in ast.walk(a_) if isinstance(x, ast.Name)}
+            lossy = sorted(p for p in relevant if p not in verbatim)
+            goals.append((f'{name}: every result-relevant option enters the hashed dictionary / file name verbatim; transformed first: {lossy}', z3.BoolVal(not lossy)))
         ctx.use('AST data-flow (taint) analysis of the loaders: assignments, dict literals, call arguments, control dependence on if-tests')
         return goals
     u.lemma('C16.key.every-result-relevant-option-is-in-the-default-cache-name', build)
@@ -427,6 +442,10 @@ def replay_key(inputs):
             bad.append('constant_lattice=False returned a cached trajectory instead of NotImplementedError')
         except NotImplementedError:
             pass
+        m1 = Trajectory.from_lammps(**kw, type_mapping={'LI': 'Li', 'O': 'O'})
+        m2 = Trajectory.from_lammps(**kw, type_mapping={'LI': 'K', 'O': 'F'})
+        if [str(s) for s in m2.species] == [str(s) for s in m1.species]:
+            bad.append('two different type_mappings with the same keys share one cache file')
         c = Trajectory.from_lammps(**{**kw, 'temperature': 500.0})
         if c.metadata.get('temperature') != 500.0:
             bad.append('different temperature served from the same cache')
